@@ -103,7 +103,14 @@ def _c11_worker(case):
             real.append(("conflicts", sp, ",".join(map(str, cf)) or "-")); m.add(f"conflicts {sp}")
             dr = sorted((nm.index(v), b) for v, b in DR.find_single_drivers(d, g))
             real.append(("drivers", sp, " ".join(f"{v},{b}" for v, b in dr) or "-")); m.add(f"drivers {sp}")
+        # the same driver queries through a caller-supplied LDOI table, shared between the calls (the documented use);
+        # the table is read again AFTER them: a query must not change it (seeded change w6_C11 wrote the fixed node into
+        # every LDOI in place)
         ld = DR.find_single_node_LDOIs(g)
+        for sp in spaces[:4]:
+            d = s2sp(sp, nm)
+            dr = sorted((nm.index(v), b) for v, b in DR.find_single_drivers(d, g, ld))
+            real.append(("drivers-with-table", sp, " ".join(f"{v},{b}" for v, b in dr) or "-")); m.add(f"drivers {sp}")
         real.append(("ldois", "", " ".join(f"{nm.index(v)},{b},{sp2s(x, nm)}" for (v, b), x in sorted(ld.items(), key=lambda kv: (nm.index(kv[0][0]), kv[0][1]))) or "-"))
         m.add("ldois")
         # order independence of the strict variant (the code iterates over a Python set)
@@ -131,7 +138,7 @@ def run_C11(tier, seed):
             viol.append({"property": "C11", "signature": "C11:" + d["query"], "what": f"{d['query']}({d['arg']}) = {d['real']} but the least fixed point of value propagation (model) gives {d['model']}", "case": w["case"], "failing_input": True})
     good = [w for w in ws if not w.get("error")]
     return {"evaluations": nq, "distinct_nontrivial": len({case_hash(w["case"]) for w in good if w["n"] >= 3}),
-            "rule": "random/modular networks x random subspaces (consistent, conflicting, node trap spaces, empty space): percolate_space, percolate_space_strict (also under a shuffled iteration order in the model), percolation_conflicts(strict=False), find_single_node_LDOIs, find_single_drivers compared with the extracted twins; evaluations = number of queries; distinct non-trivial = distinct networks with >= 3 variables",
+            "rule": "random/modular networks x random subspaces (consistent, conflicting, node trap spaces, empty space): percolate_space, percolate_space_strict (also under a shuffled iteration order in the model), percolation_conflicts(strict=False), find_single_node_LDOIs, find_single_drivers (also through a shared caller-supplied LDOI table, which is re-read after the queries) compared with the extracted twins; evaluations = number of queries; distinct non-trivial = distinct networks with >= 3 variables",
             "samples": [{"rules": w["case"]["rules"], "queries": w["queries"]} for w in good[:3]], "violations": viol, "extra": {"networks": len(cases)}}
 
 # ---------------------------------------------------------------- C10
